@@ -13,6 +13,7 @@ pub mod c13;
 pub mod c14;
 pub mod c15;
 pub mod c16;
+pub mod c17;
 pub mod c19;
 pub mod c20;
 
@@ -37,6 +38,7 @@ pub fn run(cfg: RunCfg, verif_dir: &str) -> i32 {
         "C14" => c14::run(&mut run),
         "C15" => c15::run(&mut run),
         "C16" => c16::run(&mut run),
+        "C17" => c17::run(&mut run),
         "C19" => c19::run(&mut run),
         "C20" => c20::run(&mut run),
         _ => {
@@ -63,6 +65,7 @@ pub fn replay(id: &str, suite: &str, path: &str) -> Result<(), String> {
         "C14" => c14::replay(suite, path),
         "C15" => c15::replay(suite, path),
         "C16" => c16::replay(suite, path),
+        "C17" => c17::replay(suite, path),
         "C19" => c19::replay(suite, path),
         "C20" => c20::replay(suite, path),
         _ => Err(format!("unknown property {id}")),
